@@ -287,7 +287,7 @@ func exploreNpmDoc(r *ev.Run, d *npmDoc) {
 		r.Violation("harness:npm-generated-document-unreadable", err.Error(), &caseSpec{Kind: "npm", Files: files, Main: "package.json"})
 		return
 	}
-	execute(r, &caseSpec{Kind: "npm", Files: files, Main: "package.json"}, nil)
+	execute(r, &caseSpec{Kind: "npm", Files: files, Main: "package.json", Family: d.Family}, nil)
 	shifts := ev.Pick(r, []int{0}, []int{0, 1, 2})
 	for _, sub := range subsets(len(reqs), 3) {
 		for _, sh := range shifts {
@@ -297,7 +297,7 @@ func exploreNpmDoc(r *ev.Run, d *npmDoc) {
 				ka, _ := q.Type.GetAttr(dep.KnownAs)
 				us = append(us, updSpec{Name: q.Name, KnownAs: ka, To: npmTargets[(j+sh+idx)%len(npmTargets)]})
 			}
-			execute(r, &caseSpec{Kind: "npm", Files: files, Main: "package.json", Updates: us}, nil)
+			execute(r, &caseSpec{Kind: "npm", Files: files, Main: "package.json", Updates: us, Family: d.Family}, nil)
 		}
 	}
 }
